@@ -16,7 +16,7 @@ def run(chk):
     sc = cl.gen_scenarios(chk, "C20", thorough)
     out = cl.run_scenarios(binary, sc, wd, "c20")
     outs, ifl, pfl = cl.validate(chk, out, wd, "c20", shard=600)
-    cl.report(chk, outs, ifl, pfl, {"P20"}, WHAT)
+    cl.report(chk, outs, ifl, pfl, {"P20", "abnormal"}, WHAT)
     chk.cov["traces_validated_against_impl"] = len(outs)
     chk.cov["evaluations"] = len(outs)
     chk.cov["distinct_nontrivial"] = len(sc)
